@@ -363,76 +363,126 @@ def run(ctx):
 
     # ---- R8 resolve_unit never guesses: every Ok(..) is X.remove(0)/X[0] under `X.len() == 1`
     ctx.rule("C17.R8", "resolve_unit returns Ok only with the single element of a candidate list tested `len() == 1`; the exact-match list is consulted before the case-insensitive one", floor=2)
-    ru = core.hir_fn("blots_core::units::resolve_unit")
+    RU = "blots_core::units::resolve_unit"
+    ru = M.Fn(core.mir_fn(RU), RU)
+    TAKE = ("::remove", "::swap_remove", "::pop")
+
+    def vec_of(fn_, op):
+        return fn_.ref_root(op)
+
+    def guarded_by_len_one(fn_, V, use_block):
+        """use_block is reachable only through the `len(V) == 1` edge of a test of V's length"""
+        for lb in fn_.calls_matching(lambda d: d.endswith("Vec::<T, A>::len") or d.endswith("<impl [T]>::len")):
+            t = fn_.term(lb)
+            if vec_of(fn_, t["args"][0]) != V or not fn_.dominates(lb, use_block):
+                continue
+            L = t["dest"]["l"]
+            # (a) `match v.len() { 1 => .. }`: a switch on the length itself
+            sw = fn_.switch_on_local(L, t["t"])
+            if sw is not None:
+                one = [tb for val, tb in sw[1]["targets"] if val == "1"]
+                if one and use_block in fn_.edge_dominated(sw[0], one[0]):
+                    return True
+            # (b) `if v.len() == 1`: Eq(len, 1) then a switch on the boolean
+            nb = t["t"]
+            for st_ in fn_.stmts(nb):
+                if st_["k"] == "assign" and st_["rv"]["k"] == "binop" and st_["rv"]["op"] == "Eq":
+                    ops = [st_["rv"]["a"], st_["rv"]["b"]]
+                    if any((fn_.op_place(o) or {}).get("l") == L for o in ops) and any(o.get("int") == "1" for o in ops):
+                        sw2 = fn_.switch_on_local(st_["lhs"]["l"], nb)
+                        if sw2 is not None and use_block in fn_.edge_dominated(sw2[0], sw2[1]["otherwise"]):
+                            return True
+        return False
+
+    def is_exact_list(fn_, V):
+        """True when V collects units selected by matches_exact, False when by a case-insensitive comparison, None when unknown"""
+        verdict = None
+        # pushes onto V inside this function, control-dependent on a matches_exact / lowercase test
+        closures = []
+        for cb in fn_.call_blocks():
+            c = fn_.callee(cb) or ""
+            t = fn_.term(cb)
+            if c.endswith("::push") and vec_of(fn_, t["args"][0]) == V:
+                # the tests this push is control-dependent on
+                for sb in range(fn_.n):
+                    st = fn_.term(sb)
+                    if st["k"] != "switch" or st.get("dty") != "bool" or fn_.blocks[sb].get("cleanup"):
+                        continue
+                    if cb not in fn_.edge_dominated(sb, st["otherwise"]):
+                        continue
+                    rr = fn_.trace(st["discr"])
+                    if any(r[0] == "call" and r[1].endswith("Unit::matches_exact") for r in rr):
+                        verdict = True
+                    elif verdict is None and any(r[0] == "call" and (r[1].endswith("::any") or r[1].endswith("Unit::matches")) for r in rr):
+                        verdict = False
+        if verdict is not None:
+            return verdict
+        # V = <iterator chain with a filter closure>.collect()
+        for kind_, bi, si, x in fn_.full_defs(V):
+            if kind_ == "call":
+                chain = [bi]
+                seen = set()
+                while chain:
+                    cb = chain.pop()
+                    if cb in seen:
+                        continue
+                    seen.add(cb)
+                    t = fn_.term(cb)
+                    closures += [c_ for c_ in t["func"].get("fn", {}).get("closures", []) if not c_.startswith("fn:")]
+                    for a_ in t["args"]:
+                        for r in fn_.trace(a_):
+                            if r[0] == "call":
+                                chain.append(r[2])
+        for c_ in closures:
+            try:
+                cf = M.Fn(core.mir_fn(c_), c_)
+            except Exception:
+                continue
+            if cf.calls_matching(lambda d: d.endswith("Unit::matches_exact")):
+                return True
+            if cf.calls_matching(lambda d: d.endswith("to_lowercase") or d.endswith("eq_ignore_ascii_case")):
+                verdict = False
+        return verdict
+
     oks = []
-
-    def visit(n, guards):
-        if isinstance(n, list):
-            for x in n:
-                visit(x, guards)
-            return
-        if not isinstance(n, dict):
-            return
-        k = H.kind(n)
-        if k == "If":
-            visit(n["cond"], guards)
-            visit(n["then"], guards + [n["cond"]])
-            if n.get("else"):
-                visit(n["else"], guards)
-            return
-        if k == "Call" and (H.path_def(n["f"]) or "").endswith("result::Result::Ok"):
-            oks.append((n, list(guards)))
-        if k == "Closure":
-            return
-        for v in n.values():
-            if isinstance(v, (dict, list)):
-                visit(v, guards)
-
-    visit(ru["body"], [])
+    for b_ in range(ru.n):
+        if ru.blocks[b_].get("cleanup"):
+            continue
+        for st_ in ru.stmts(b_):
+            if st_["k"] == "assign" and st_["rv"]["k"] == "agg" and st_["rv"].get("adt") == "core::result::Result" and st_["rv"].get("variant") == "Ok" and st_["lhs"]["l"] == 0 and not st_["lhs"]["p"]:
+                oks.append((b_, st_))
+    if not oks:
+        ctx.inst("C17.R8", "resolve_unit#ok", None, "no Ok(..) construction found in resolve_unit", ru.loc())
     order = []
-    for n, guards in oks:
-        payload = H.strip(n["args"][0])
-        src = None
-        if H.kind(payload) == "MethodCall" and payload["name"] in ("remove", "swap_remove", "pop"):
-            src = H.path_local(payload["recv"])
-        elif H.kind(payload) == "Index":
-            src = H.path_local(payload["e"])
-        elif H.kind(payload) == "MethodCall" and payload["name"] in ("clone",):
-            inner = H.strip(payload["recv"])
-            if H.kind(inner) == "Index":
-                src = H.path_local(inner["e"])
-        good = False
-        for g in guards:
-            g = H.strip(g)
-            if H.kind(g) == "Binary" and g["op"] == "Eq":
-                l, r = H.strip(g["l"]), H.strip(g["r"])
-                if H.kind(l) == "MethodCall" and l["name"] == "len" and H.path_local(l["recv"]) == src and H.lit(r) and H.lit(r)["v"] == "1":
-                    good = True
-        order.append(src)
-        ctx.inst("C17.R8", "resolve_unit#ok[%s]" % src, good and src is not None,
-                 "Ok(..) takes its value from %s, guarded by %s.len() == 1: %s" % (src, src, good), H.loc(n))
-    # which list is exact: pushes guarded by a flag initialised from matches_exact
-    flags = {}
-    for n in H.walk(ru["body"]):
-        if H.kind(n) == "Let" and H.kind(n.get("pat")) == "Bind" and n.get("init"):
-            i = H.strip(n["init"])
-            if H.kind(i) == "MethodCall":
-                flags[n["pat"]["name"]] = i["name"]
-    exact_lists, other_lists = set(), set()
-    for n in H.walk(ru["body"]):
-        if H.kind(n) == "If":
-            c = H.path_local(n["cond"])
-            if c in flags:
-                for m in H.walk(n["then"]):
-                    if H.kind(m) == "MethodCall" and m["name"] == "push":
-                        (exact_lists if flags[c] == "matches_exact" else other_lists).add(H.path_local(m["recv"]))
-    if order and exact_lists:
-        first_exact = min((i for i, s in enumerate(order) if s in exact_lists), default=None)
-        first_other = min((i for i, s in enumerate(order) if s in other_lists), default=None)
-        ok = first_exact is not None and (first_other is None or first_exact < first_other)
-        ctx.inst("C17.R8", "resolve_unit#exact-first", ok, "Ok sources in program order: %s; exact lists %s, case-insensitive lists %s" % (order, sorted(exact_lists), sorted(other_lists)), H.loc(ru["body"]))
+    for i, (b_, st_) in enumerate(oks):
+        roots = ru.trace(st_["rv"]["ops"][0])
+        takes = [r for r in roots if r[0] == "call" and (r[1].endswith(TAKE) or r[1].endswith("Index<I>>::index"))]
+        if not roots or len(takes) != len(roots):
+            # a value produced by a std / third-party routine other than taking the single candidate (a cache lookup, a default, a first()):
+            # definitely not "the unique match"; a value from a crate-local helper or an unknown source is left undecided
+            foreign = [r for r in roots if r not in takes and r[0] == "call" and not (r[1].startswith("blots_core::") or r[1].startswith("<blots_core"))]
+            ctx.inst("C17.R8", "resolve_unit#ok[%d]" % i, False if foreign else None,
+                     "Ok(..) carries %s: not the single element taken from a candidate list%s" % ([r[:2] for r in roots], " (the answer does not come from the table scan)" if foreign else ""), ru.loc(b_))
+            continue
+        good = True
+        Vs = set()
+        for r in takes:
+            V = vec_of(ru, ru.term(r[2])["args"][0])
+            Vs.add(V)
+            good = good and guarded_by_len_one(ru, V, r[2])
+        kinds = {V: is_exact_list(ru, V) for V in Vs}
+        lab = "exact" if all(v is True for v in kinds.values()) else ("case-insensitive" if all(v is False for v in kinds.values()) else "list")
+        order.append((b_, lab))
+        ctx.inst("C17.R8", "resolve_unit#ok[%s]" % lab, good, "Ok(..) returns the element taken from the %s candidate list, reachable only when that list's len() == 1: %s" % (lab, good), ru.loc(b_))
+    ex = [b_ for b_, lab in order if lab == "exact"]
+    ci = [b_ for b_, lab in order if lab == "case-insensitive"]
+    if ex and ci:
+        # the exact answer is decided first: no path reaches the exact Ok after the case-insensitive one was possible
+        ok = all(e not in ru.reachable(c) for e in ex for c in ci) and all(any(c in ru.reachable(pb) for pb in ru.pred(e)) or True for e in ex for c in ci)
+        first = all(not ru.dominates(c, e) for e in ex for c in ci)
+        ctx.inst("C17.R8", "resolve_unit#exact-first", ok and first, "the exact-match Ok is decided before the case-insensitive list is consulted: %s" % (ok and first), ru.loc())
     else:
-        ctx.inst("C17.R8", "resolve_unit#exact-first", None, "could not identify the exact-match list", H.loc(ru["body"]))
+        ctx.inst("C17.R8", "resolve_unit#exact-first", None, "could not identify both candidate lists (exact: %d, case-insensitive: %d)" % (len(ex), len(ci)), ru.loc())
 
     # ---- R9 the convert built-in hands the user's identifiers to the table unmodified
     ctx.rule("C17.R9", "every caller of units::convert in the evaluator passes (number, from, to) taken from its own arguments in that order, the two identifiers exactly as the user wrote them (no rewriting between as_string and the lookup): every listed spelling, including non-ASCII ones, reaches resolve_unit", floor=1)
